@@ -127,7 +127,8 @@ def run_history(hist: List[list]) -> Dict[str, Any]:
     objs: Dict[int, Any] = {}
     wref: Dict[int, Any] = {}
     qs: Dict[int, Any] = {}
-    keep = {op[1] for op in hist if op[0] in ("Eval", "ReEval")}
+    keep = {op[1] for op in hist if op[0] in ("Eval", "ReEval", "Start")}
+    its: Dict[int, Any] = {}
     nq = 0
     nnew = 0
     emap = SymbolicExpression._id_expression_map_
@@ -189,6 +190,18 @@ def run_history(hist: List[list]) -> Dict[str, Any]:
                 res = list(qs[op[1]].evaluate())
                 out = [1, number(res)]
                 del res
+            elif kind == "Start":
+                # a live evaluation: the iterator is created, nothing runs before the first row is requested
+                its[len(its)] = qs[op[1]].evaluate()
+            elif kind == "Next":
+                try:
+                    x = next(its[op[1]])
+                    out = [1, number([x])]
+                    del x
+                except StopIteration:
+                    out = [1, []]
+            elif kind == "Close":
+                its[op[1]].close()
             elif kind == "Relate":
                 r = PredicateClassRelation(objs[op[1]], objs[op[3]], fl[op[2]])
                 nw = r.add_to_graph()
@@ -220,6 +233,9 @@ def run_history(hist: List[list]) -> Dict[str, Any]:
                       "rels": sorted([list(t) for t in {tuple(r) for r in rels}]),
                       "nvars": d // 3 if d % 3 == 0 else -d})
     objs.clear()
+    for it in its.values():
+        it.close()
+    its.clear()
     qs.clear()
     gc.collect()
     return {"steps": steps}
@@ -461,8 +477,17 @@ def run_roles(payload) -> Dict[str, Any]:
 
 
 # ------------------------------------------------------------------------------------------------ model side
-def op_term(op: list, ob: List[int]) -> str:
+def op_term(op: list, ob: List[int], out=None) -> str:
     k = op[0]
+    if k == "Start":
+        return f"StartV {op[1]}"
+    if k == "Close":
+        return f"CloseV {op[1]}"
+    if k == "Next":
+        # the row the runtime produced is an input of the operation (like addresses and node indices)
+        rows = out[1] if out else []
+        y = "None" if not rows else ("(Some None)" if rows[0] < 0 else f"(Some (Some {rows[0]}))")
+        return f"NextV {op[1]} {y}"
     if k == "New":
         return f"New {op[1]} {ob[0]} {ob[1]}"
     if k == "Relate":
@@ -477,7 +502,7 @@ def op_term(op: list, ob: List[int]) -> str:
 
 
 def hist_term(hist: List[list], steps: List[dict]) -> str:
-    return "[" + "; ".join(op_term(op, st.get("ob", [])) for op, st in zip(hist, steps)) + "]"
+    return "[" + "; ".join(op_term(op, st.get("ob", []), st.get("out")) for op, st in zip(hist, steps)) + "]"
 
 
 def impl_sx(steps: List[dict]) -> str:
@@ -493,69 +518,74 @@ def impl_sx(steps: List[dict]) -> str:
 
 def classes_of(hist: List[list]) -> List[str]:
     """Decidable input classes outside the proved fragment F:
-       K_clear  the graph is re-created;
-       K_stale  a query object is evaluated although it was evaluated before (QueryE counts as its first evaluation);
-       K_pin    a first evaluation (QueryE, or Eval of a declared variable) is followed by a Drop."""
+       K_clear      the graph is re-created;
+       K_live_drop  an instance is dropped while an evaluation is live (begun by a Next, not yet exhausted / closed) and
+                    that evaluation is asked for another row afterwards: an instance that dies before its turn is passed
+                    on as None."""
     ks = []
     kinds = [o[0] for o in hist]
     if "Clear" in kinds:
         ks.append("K_clear")
-    evaluated = set()
-    nq = 0
-    stale = False
-    first_eval_at = None
-    for n, o in enumerate(hist):
-        if o[0] == "QueryE":
-            evaluated.add(nq)
-            nq += 1
-            first_eval_at = n if first_eval_at is None else first_eval_at
-        elif o[0] == "Declare":
-            nq += 1
-        elif o[0] in ("Eval", "ReEval"):
-            if o[1] in evaluated:
-                stale = True
-            else:
-                evaluated.add(o[1])
-                first_eval_at = n if first_eval_at is None else first_eval_at
-    if stale:
-        ks.append("K_stale")
-    if first_eval_at is not None and "Drop" in kinds[first_eval_at:]:
-        ks.append("K_pin")
+    begun = set()
+    tainted = set()
+    live_drop = False
+    for o in hist:
+        if o[0] == "Next":
+            if o[1] in tainted:
+                live_drop = True
+            begun.add(o[1])
+        elif o[0] == "Close":
+            begun.discard(o[1])
+            tainted.discard(o[1])
+        elif o[0] == "Drop":
+            tainted |= begun
+    if live_drop:
+        ks.append("K_live_drop")
     return ks
 
 
 def well_formed(hist: List[list]) -> bool:
-    """Histories the model covers: no Clear between a Declare and the first evaluation of that variable (the pending
-    generator would stay bound to the dropped graph); Eval refers to an existing query object."""
-    pending = set()
-    nq = 0
+    """Histories the model covers: Eval / Start refer to existing query objects, Next / Close to existing evaluations, and an
+    evaluation begun before a Clear is not continued after it (its generator stays bound to the dropped graph)."""
+    nq = ne = 0
+    begun = set()
+    stale = set()
     for o in hist:
-        if o[0] == "QueryE":
-            nq += 1
-        elif o[0] == "Declare":
-            pending.add(nq)
+        if o[0] in ("QueryE", "Declare"):
             nq += 1
         elif o[0] in ("Eval", "ReEval"):
             if o[1] >= nq:
                 return False
-            pending.discard(o[1])
-        elif o[0] == "Clear":
-            evaluated_later = {x[1] for x in hist if x[0] in ("Eval", "ReEval")}
-            if pending & evaluated_later:
+        elif o[0] == "Start":
+            if o[1] >= nq:
                 return False
+            ne += 1
+        elif o[0] == "Next":
+            if o[1] >= ne or o[1] in stale:
+                return False
+            begun.add(o[1])
+        elif o[0] == "Close":
+            if o[1] >= ne:
+                return False
+            begun.discard(o[1])
+            stale.discard(o[1])
+        elif o[0] == "Clear":
+            stale |= begun
     return True
 
 
 # ------------------------------------------------------------------------------------------------ generation
 PROFILES = {
-    # name: (weights New Drop Sweep QueryG QueryE Declare Eval Relate Clear)
-    "F": (30, 18, 8, 14, 0, 0, 0, 22, 0),
-    "Fq": (30, 16, 6, 10, 6, 6, 8, 18, 0),    # EQL queries, but nothing is dropped once a query has been evaluated
-    "decl": (28, 16, 8, 6, 0, 12, 14, 14, 0),  # variables declared, the world changes, evaluated later
-    "all": (28, 16, 7, 9, 6, 5, 7, 18, 3),
-    "churn": (30, 28, 10, 8, 0, 0, 0, 24, 0),
+    # name: (weights New Drop Sweep QueryG QueryE Declare Eval Start Next Close Relate Clear)
+    "F": (30, 18, 8, 14, 0, 0, 0, 0, 0, 0, 22, 0),
+    "Fq": (30, 16, 6, 8, 6, 6, 10, 0, 0, 0, 18, 0),    # complete EQL evaluations interleaved with everything else
+    "decl": (28, 16, 8, 6, 0, 12, 14, 0, 0, 0, 14, 0),  # variables declared, the world changes, evaluated (again and again)
+    "live": (24, 10, 6, 4, 2, 8, 4, 8, 24, 5, 10, 0),   # live evaluations consumed row by row while the world changes
+    "livenodrop": (26, 0, 6, 4, 2, 8, 4, 8, 26, 5, 10, 0),
+    "all": (26, 14, 7, 8, 5, 5, 7, 4, 10, 3, 16, 3),
+    "churn": (30, 28, 10, 8, 0, 0, 0, 0, 0, 0, 24, 0),
 }
-OPS = ["New", "Drop", "Sweep", "QueryG", "QueryE", "Declare", "Eval", "Relate", "Clear"]
+OPS = ["New", "Drop", "Sweep", "QueryG", "QueryE", "Declare", "Eval", "Start", "Next", "Close", "Relate", "Clear"]
 
 
 def gen_history(rng: core.Rng, profile: str, nmin=4, nmax=16) -> List[list]:
@@ -565,10 +595,24 @@ def gen_history(rng: core.Rng, profile: str, nmin=4, nmax=16) -> List[list]:
     user: List[int] = []
     nnew = 0
     nq = 0
-    pending: List[int] = []
+    ne = 0
+    open_e: List[int] = []      # evaluations not closed yet (possibly exhausted: a further Next just ends again)
+    begun: set = set()
+    stale: set = set()
     hist: List[list] = []
-    seen_e = False
     clss = [0, 1, 2, 3, 4, 5, 6, 7, 3, 5, 0]
+    if profile.startswith("live"):
+        # some instances, a query object and a live evaluation to start with
+        for _ in range(rng.randint(1, 4)):
+            hist.append(["New", rng.choice(clss)])
+            user.append(nnew)
+            nnew += 1
+        hist.append(["Declare", rng.choice([0, 0, 1, 2])])
+        nq = 1
+        hist.append(["Start", 0])
+        open_e.append(0)
+        ne = 1
+        n += len(hist)
     while len(hist) < n:
         k = rng.choice(bag)
         if k == "New":
@@ -576,42 +620,46 @@ def gen_history(rng: core.Rng, profile: str, nmin=4, nmax=16) -> List[list]:
             user.append(nnew)
             nnew += 1
         elif k == "Drop":
-            if not user or (profile == "Fq" and seen_e):
+            if not user:
                 continue
             hist.append(["Drop", user.pop(rng.next() % len(user))])
         elif k == "Sweep":
             hist.append(["Sweep"])
-        elif k in ("QueryG", "QueryE"):
+        elif k in ("QueryG", "QueryE", "Declare"):
             hist.append([k, rng.choice(QUERY_TYPES)])
-            if k == "QueryE":
+            if k != "QueryG":
                 nq += 1
-                seen_e = True
-        elif k == "Declare":
-            hist.append(["Declare", rng.choice(QUERY_TYPES)])
-            pending.append(nq)
-            nq += 1
         elif k == "Eval":
             if nq == 0:
                 continue
-            # mostly the first evaluation of a declared variable; sometimes any query object again
-            if pending and (profile in ("Fq", "decl") or rng.chance(0.7)):
-                v = pending.pop(rng.next() % len(pending))
-            else:
-                if profile in ("Fq", "decl"):
-                    continue
-                v = rng.next() % nq
-                if v in pending:
-                    pending.remove(v)
-            hist.append(["Eval", v])
-            seen_e = True
+            hist.append(["Eval", rng.next() % nq])
+        elif k == "Start":
+            if nq == 0:
+                continue
+            hist.append(["Start", rng.next() % nq])
+            open_e.append(ne)
+            ne += 1
+        elif k == "Next":
+            cand = [e for e in open_e if e not in stale]
+            if not cand:
+                continue
+            e = rng.choice(cand)
+            hist.append(["Next", e])
+            begun.add(e)
+        elif k == "Close":
+            if not open_e:
+                continue
+            e = open_e.pop(rng.next() % len(open_e))
+            hist.append(["Close", e])
+            begun.discard(e)
+            stale.discard(e)
         elif k == "Relate":
             if not user:
                 continue
             hist.append(["Relate", rng.choice(user), rng.next() % 2, rng.choice(user)])
         elif k == "Clear":
-            if pending:
-                continue  # a pending generator is bound to the graph of its declaration (outside the model)
             hist.append(["Clear"])
+            stale |= begun
     return hist
 
 
@@ -619,26 +667,30 @@ def exhaustive(depth: int) -> List[List[list]]:
     """All valid histories up to `depth` over a tiny alphabet (classes A and D, queries on A and C, one field)."""
     out: List[List[list]] = []
 
-    def rec(h, user, nnew, pend=(), nq=0):
+    def rec(h, user, nnew, nq=0, live=False):
         if h:
             out.append(list(h))
         if len(h) == depth:
             return
         for c in (0, 3):
-            rec(h + [["New", c]], user + [nnew], nnew + 1, pend, nq)
+            rec(h + [["New", c]], user + [nnew], nnew + 1, nq, live)
         for o in user:
-            rec(h + [["Drop", o]], [u for u in user if u != o], nnew, pend, nq)
+            rec(h + [["Drop", o]], [u for u in user if u != o], nnew, nq, live)
         if nq == 0 and len(h) <= depth - 3:
-            rec(h + [["Declare", 0]], user, nnew, (0,), 1)   # one variable, declared early enough to matter
-        for v in pend:
-            rec(h + [["Eval", v]], user, nnew, (), nq)
+            rec(h + [["Declare", 0]], user, nnew, 1, live)   # one variable, declared early enough to matter
+        if nq == 1 and not live:
+            rec(h + [["Eval", 0]], user, nnew, nq, live)      # complete evaluations (any number of them)
+            if len(h) <= depth - 2:
+                rec(h + [["Start", 0]], user, nnew, nq, True)  # or one evaluation consumed row by row
+        if live:
+            rec(h + [["Next", 0]], user, nnew, nq, live)
         if nnew:
-            rec(h + [["Sweep"]], user, nnew, pend, nq)
+            rec(h + [["Sweep"]], user, nnew, nq, live)
             for t in (0, 2):
-                rec(h + [["QueryG", t]], user, nnew, pend, nq)
+                rec(h + [["QueryG", t]], user, nnew, nq, live)
             for a in user:
                 for b in user:
-                    rec(h + [["Relate", a, 0, b]], user, nnew, pend, nq)
+                    rec(h + [["Relate", a, 0, b]], user, nnew, nq, live)
     rec([], [], 0)
     # every prefix's observations are part of the trace of its extensions
     return [h for h in out if len(h) == depth]
@@ -778,7 +830,7 @@ def replay_findings(rep: Report, prop: str, model_ok: bool, accept_all: Dict[str
                            "explanation": f"regression: the defect repaired by {f.commit} is back"})
 
 
-ACCEPT = {"K_clear": "C13-d", "K_stale": "C13-b", "K_pin": "C13-c"}
+ACCEPT = {"K_clear": "C13-d", "K_live_drop": "C13-e"}
 TRUSTED = [
     "source pins pins/registry.json (19 methods mirrored by the hand model but not translated: Variable domain plumbing, HashedIterable / "
     "HashedValue identity, let / entity / an, SymbolicExpression / RWXNode registration, WrappedInstance.__eq__/__hash__)",
@@ -860,7 +912,7 @@ def run(tier: str, seed: int, replay=None) -> int:
         hists = [replay["case"]]
     else:
         n = 1 if tier == "quick" else 12
-        hists = corpus_cases(PROP) + gen_cases(tier, seed, [("F", 400 * n), ("churn", 250 * n), ("Fq", 150 * n), ("decl", 300 * n), ("all", 400 * n)],
+        hists = corpus_cases(PROP) + gen_cases(tier, seed, [("F", 300 * n), ("churn", 200 * n), ("Fq", 200 * n), ("decl", 250 * n), ("live", 250 * n), ("livenodrop", 150 * n), ("all", 300 * n)],
                                                4 if tier == "quick" else 5)
     if not model_ok:
         rep.note("model not available; comparing the implementation with the Spec only (search for a failing input)")
